@@ -165,13 +165,18 @@ def ob_commit(ctx, f, v, blocks):
 
 
 def ob_default_identifiers(ctx, f, v, blocks):
-    # closure of (1..=max).map(|i| try_from(i).expect): the range starts at the literal 1
+    # Identifier::try_from(i).expect(..) for every i of 1..=max: the range starts at the literal 1, so i != 0 — whether written as
+    # (1..=max).map(|i| ..).collect() or as a push loop over the range
     parent = ctx.prog.fns.get(CORE + "keys::default_identifiers")
     if not parent:
         return False
-    rt = FnView.get(ctx.prog, parent).cx.local(0)
-    return mentions(rt, lambda s: is_call(s, name="new") and "RangeInclusive" in s[1] and const(1)(s[2][0])) and \
-        all(is_call(v.call_args(b)[0], name="try_from") and v.call_args(b)[0][2][0] == ("arg", 2) for b in blocks)
+    pv = FnView.get(ctx.prog, parent)
+    m = mapping_of(ctx.prog, parent, pv, pv.cx.local(0))
+    if not m or m["key"] is not None:
+        return False
+    src, val = m["source"], m["val"]
+    return is_call(src, name="new") and "RangeInclusive" in src[1] and const(1)(src[2][0]) and len(blocks) == 1 and \
+        is_call(val, name="expect") and is_call(val[2][0], name="try_from") and val[2][0][2][0] == ITEM
 
 
 def ob_multiscalar_callers(ctx, f, v, blocks):
@@ -447,6 +452,16 @@ def run(ctx):
                 row = r
                 used.add((suffix, kind))
                 break
+        if row is None:
+            # the same code moved between a function and its own closure (`.map(|i| f(i).expect(..))` <-> a loop doing the same):
+            # the row reviewed for one member of the family applies, its obligation is re-checked on the current form
+            root = lambda key: key.split("::{closure")[0]
+            for (suffix, kind), r in REVIEWED.items():
+                if kind == k and root(fk).endswith(root(suffix)) and (("{closure" in suffix) != ("{closure" in fk)) and \
+                        (suffix, kind) not in used:
+                    row = r
+                    used.add((suffix, kind))
+                    break
         where = "%s" % fk
         if row is None:
             ctx.violation("PANIC", where, k,
